@@ -395,6 +395,8 @@ def rule_simplify_member(ctx: Ctx) -> None:
 def run(ctx: Ctx) -> None:
     from .c13 import rule_unwrap_order
     rule_unwrap_order(ctx)
+    from .c14 import rule_derived_fields
+    rule_derived_fields(ctx)   # unwrap() and the compilers read reg_type / register: a wrapper moved to the other register type must take its gates along
     rule_group_order(ctx)
     from .c14 import rule_wrapper_per_operation
     rule_wrapper_per_operation(ctx)  # the exported body of a local Clifford is the product of *all* its listed gates
